@@ -115,15 +115,25 @@ Definition err_kind {A} (o : outcome A) : N :=
 Definition digest (l : list N) : N := crc32_fast (flat_map be32 l).
 
 (* a panic ends the history: nothing after it is compared (Go's state at a panic is whatever the
-   statements before it left behind) *)
-Fixpoint run_ops (m : msg) (ops : list op) (acc : list N) : list N :=
+   statements before it left behind).  After a FAILED Decode the attribute list still holds the views
+   of the previous message while Raw already holds the new bytes ("any error is unrecoverable"):
+   live views and snapshots differ there, so until the next operation that resets the attribute list
+   (Build, Reset, a successful Decode) only status and len(Raw) are compared. *)
+Definition is_decode_op (o : op) : bool := match o with ODecode _ => true | _ => false end.
+Definition resets_attrs (o : op) : bool := match o with OBuild _ | OReset => true | _ => false end.
+
+Fixpoint run_ops (m : msg) (ops : list op) (stale : bool) (acc : list N) : list N :=
   match ops with
-  | [] => acc ++ ser_msg m
+  | [] => if stale then acc else acc ++ ser_msg m
   | o :: r =>
     let '(m', st) := apply_op m o in
     match st with
     | Panic | OutOfFuel => acc ++ [st_code st]
-    | _ => run_ops m' r (acc ++ [st_code st; err_kind st; len (m_raw m'); digest (ser_msg m')])
+    | _ =>
+      let stale' := if is_decode_op o then negb (is_ok st)
+                    else if resets_attrs o then false else stale in
+      run_ops m' r stale'
+              (acc ++ [st_code st; err_kind st; len (m_raw m'); if stale' then 0 else digest (ser_msg m')])
     end
   end.
 
@@ -136,7 +146,47 @@ Definition run_c03 (sub : N) (args : list (list N)) : list N :=
       let '(m0, st0) := start_state prevarr prevlen data in
       match st0 with
       | Panic | OutOfFuel => [st_code st0]
-      | _ => run_ops m0 ops [st_code st0]
+      | _ => run_ops m0 ops (negb (is_ok st0)) [st_code st0]
+      end
+    end
+  | _, _ => bad_case
+  end.
+
+(* C18: pooled HMAC histories.
+   1801 <[algo]> <op> <op> ...   algo 1 = SHA-1, 256 = SHA-256
+   op = [1; key...] acquire | [2; bytes...] write | [3; prefix...] sum | [4] reset | [5] put
+   the pooled object is threaded through (a Put object is the next one acquired);
+   result: for every Sum its length and bytes; 2 at the end if the model panicked *)
+Definition parse_hop (f : list N) : option (option hop) :=
+  match f with
+  | 1 :: key => Some (Some (HAcquire key))
+  | 2 :: p => Some (Some (HWrite p))
+  | 3 :: pre => Some (Some (HSum pre))
+  | [4] => Some (Some HReset)
+  | [5] => Some None
+  | _ => None
+  end.
+Fixpoint parse_hops (fs : list (list N)) : option (list hop) :=
+  match fs with
+  | [] => Some []
+  | f :: r =>
+    match parse_hop f, parse_hops r with
+    | Some (Some o), Some os => Some (o :: os)
+    | Some None, Some os => Some os
+    | _, _ => None
+    end
+  end.
+Definition run_c18 (sub : N) (args : list (list N)) : list N :=
+  match sub, args with
+  | 1, [algo] :: opfs =>
+    match parse_hops opfs with
+    | None => bad_case
+    | Some ops =>
+      let r := if algo =? 1 then h_run sha1 64 pool_new_sha1 ops []
+               else h_run sha256 64 pool_new_sha256 ops [] in
+      match r with
+      | Ok (_, outs) => flat_map (fun o => lenN o :: o) outs
+      | _ => [2]
       end
     end
   | _, _ => bad_case
@@ -147,6 +197,7 @@ Definition run (cmd : N) (args : list (list N)) : list N :=
   | 1 => run_c01 (cmd mod 100) args
   | 2 => run_c02 (cmd mod 100) args
   | 3 => run_c03 (cmd mod 100) args
+  | 18 => run_c18 (cmd mod 100) args
   | 19 => run_c19 (cmd mod 100) args
   | _ => bad_case
   end.
